@@ -940,3 +940,48 @@ PRESERVING += [
     ('p5-dfu-read-all', ['C18', 'C19'], [(D, _FW_READ, "        firmware = f.read(-1)\n")]),
     ('p5-cli-probe-append', ['C15', 'C16', 'C17'], [(A, _CLI_CONST, _probe('ab'))]),
 ]
+
+
+# ---- C13 round 6: custom-lexed line kinds searched anywhere; re.findall of a complement class; numeric tests on register operands ----
+_RTYPE_RET = "        name, rd, rs1, rs2 = tokens\n        name = name.lower()\n        return RTypeInstruction(line, name, rd, rs1, rs2)\n"
+_RTYPE_HEAD = "        name, rd, rs1, rs2 = tokens\n        name = name.lower()\n"
+_RE_ERR_DEF = "    RE_ERROR = re.compile(r'\\s*error (.*)')"
+_RE_STR_DEF = "    RE_STRING = re.compile(r'\\s*string (.*)')"
+
+BREAKING += [
+    # a comment that contains "error " / "string " turns the line into that directive
+    ('c13-literal-search-anywhere', ['C13'], [(A, _RE_ERR_DEF, "    RE_ERROR = re.compile(r'error (.*)')"), (A, _RE_STR_DEF, "    RE_STRING = re.compile(r'string (.*)')"),
+                                              (A, "    match = RE_ERROR.match(line.contents)", "    match = RE_ERROR.search(line.contents)"),
+                                              (A, "    match = RE_STRING.match(line.contents)", "    match = RE_STRING.search(line.contents)")]),
+    ('c13-literal-search-keeps-prefix', ['C13'], [(A, "    match = RE_STRING.match(line.contents)", "    match = RE_STRING.search(line.contents)")]),
+    ('c13-findall-ws-only', ['C13'], [(A, _LEX_SPLIT_DROP, "    tokens = re.findall(r'[^\\s]+', contents)\n")]),
+    ('c13-findall-semicolon', ['C13'], [(A, _LEX_SPLIT_DROP, "    tokens = re.findall(r'[^\\s,;]+', contents)\n")]),
+    # `add rd, rs1, 12` becomes addi: a bare number is a documented register spelling there
+    ('c13-rtype-imm-shorthand', ['C13'], [(A, _RTYPE_RET, _RTYPE_HEAD + "        imm_forms = {'add': 'addi', 'and': 'andi', 'or': 'ori', 'xor': 'xori', 'slt': 'slti', 'sltu': 'sltiu'}\n"
+                                           "        if name in imm_forms and is_int(rs2):\n            imm = parse_immediate([rs2], line)\n            return ITypeInstruction(line, imm_forms[name], rd, rs1, imm)\n"
+                                           "        return RTypeInstruction(line, name, rd, rs1, rs2)\n")]),
+    ('c13-rtype-number-refused', ['C13'], [(A, _RTYPE_RET, _RTYPE_HEAD + "        if is_int(rs2):\n            raise AssemblerError('r-type instructions take registers only', line)\n"
+                                            "        return RTypeInstruction(line, name, rd, rs1, rs2)\n")]),
+    ('c13-rtype-not-number-first', ['C13'], [(A, _RTYPE_RET, _RTYPE_HEAD + "        if not is_int(rs1):\n            return RTypeInstruction(line, name, rd, rs1, rs2)\n"
+                                              "        return ITypeInstruction(line, name + 'i', rd, rs2, parse_immediate([rs1], line))\n")]),
+]
+
+PRESERVING += [
+    ('p13-literal-search-anchored', ['C13'], [(A, _RE_STR_DEF, "    RE_STRING = re.compile(r'^\\s*string (.*)')"),
+                                              (A, "    match = RE_STRING.match(line.contents)", "    match = RE_STRING.search(line.contents)")]),
+    ('p13-findall-complement', ['C13'], [(A, _LEX_SPLIT_DROP, "    tokens = re.findall(r'[^\\s,]+', contents)\n")]),
+    ('p13-findall-complement-compiled', ['C13'], [(A, "def lex_tokens(line):", "RE_TOKEN = re.compile(r'[^,\\s]+')\n\n\ndef lex_tokens(line):"),
+                                                  (A, _LEX_SPLIT_DROP, "    tokens = RE_TOKEN.findall(contents)\n")]),
+    ('p13-findall-nonspace', ['C13'], [(A, _LEX_SPLIT_DROP, "    tokens = re.findall(r'\\S+', contents.replace(',', ' '))\n")]),
+    ('p13-rtype-isint-noop', ['C13'], [(A, _RTYPE_RET, _RTYPE_HEAD + "        if is_int(rs2):\n            log.debug('numeric register operand')\n"
+                                        "        return RTypeInstruction(line, name, rd, rs1, rs2)\n")]),
+]
+
+UNDECIDED += [
+    ('u13-findall-group', ['C13'], [(A, _LEX_SPLIT_DROP, "    tokens = re.findall(r'([^\\s,]+)', contents)\n")]),
+    ('u13-findall-two-or-more', ['C13'], [(A, _LEX_SPLIT_DROP, "    tokens = re.findall(r'[^\\s,]{2,}', contents)\n")]),
+    ('u13-rtype-number-normalised', ['C13'], [(A, _RTYPE_RET, _RTYPE_HEAD + "        if is_int(rs2):\n            rs2 = 'x' + str(int(rs2, 0))\n"
+                                               "        return RTypeInstruction(line, name, rd, rs1, rs2)\n")]),
+    ('u13-rtype-number-own-construction', ['C13'], [(A, _RTYPE_RET, _RTYPE_HEAD + "        if is_int(rs2):\n            return RTypeInstruction(line, name, rd, rs1, rs2)\n"
+                                                     "        return RTypeInstruction(line, name, rd, rs1, rs2)\n")]),
+]
